@@ -51,7 +51,7 @@ var bStub = []string{"network (SimNet: peer HTTP and a fake Honeycomb API /1/bat
 
 const hnyHost = "api.hny.sim"
 const legacyKey = "abcdef0123456789abcdef0123456789"
-const legacyKey2 = "0123456789abcdef0123456789abcdef" // a second tenant
+const legacyKey2 = "0123456789abcdef0123456789abcdef"                             // a second tenant
 const envKey = "hcxik_01hqk4k20cjeh63wca8vva5stwhcxik01hqk4k20cjeh63wca8vva5stw0" // environment-scoped ingest key
 
 type nullStartStopLogger struct{}
@@ -60,30 +60,30 @@ func (nullStartStopLogger) Debugf(string, ...interface{}) {}
 func (nullStartStopLogger) Errorf(string, ...interface{}) {}
 
 type bNode struct {
-	w       *worldB
-	idx     int
-	name    string
-	addr    string // peer address as others see it
-	cfg     *config.MockConfig
-	clk     *SimClock
-	tr      *SimTracer
-	app     *app.App
-	coll    *collect.InMemCollector
-	sr      *collect.StressRelief
-	hl      *health.Health
-	mm      *metrics.MultiMetrics
-	shard   sharder.Sharder
-	upTx    *transmit.DirectTransmission
-	peerTx  *transmit.DirectTransmission
-	objects []*inject.Object
-	done    chan struct{}
+	w        *worldB
+	idx      int
+	name     string
+	addr     string // peer address as others see it
+	cfg      *config.MockConfig
+	clk      *SimClock
+	tr       *SimTracer
+	app      *app.App
+	coll     *collect.InMemCollector
+	sr       *collect.StressRelief
+	hl       *health.Health
+	mm       *metrics.MultiMetrics
+	shard    sharder.Sharder
+	upTx     *transmit.DirectTransmission
+	peerTx   *transmit.DirectTransmission
+	objects  []*inject.Object
+	done     chan struct{}
 	running  bool
 	stopping bool
 	heap     uint64
 	down     atomic.Bool
 	inflight sync.WaitGroup // handlers in progress; http.Server.Shutdown waits for them in production
 	admitMu  sync.Mutex     // a listener either accepts a connection or has been closed: admission and closing exclude each other
-	heapOnce atomic.Uint64 // one-shot simulated heap reading (race mode: set without a lock)
+	heapOnce atomic.Uint64  // one-shot simulated heap reading (race mode: set without a lock)
 }
 
 // hnyEvent is one event as finally received by the fake Honeycomb API.
@@ -124,13 +124,13 @@ type worldB struct {
 	nodes []*bNode
 	start time.Time
 
-	mu       sync.Mutex
-	hny      []*hnyEvent
-	peerLog  []*peerDelivery
+	mu             sync.Mutex
+	hny            []*hnyEvent
+	peerLog        []*peerDelivery
 	stateless      bool // race mode: record nothing, take no harness lock on refinery's paths
 	bufferedAtStop map[string]bool
 	queuedAtStop   bool
-	authMode string // ok | fail | timeout
+	authMode       string // ok | fail | timeout
 	// Honeycomb too busy: from busyFrom on, the next busyLeft batches that have
 	// not been refused before are answered 429/503 with Retry-After
 	busyFrom       time.Duration
@@ -139,7 +139,7 @@ type worldB struct {
 	busyRetryAfter int
 	busySeen       map[string]bool
 	stopAt         time.Duration // when the shutdown was requested (0: not a shutdown run)
-	selfSend int
+	selfSend       int
 	// per-node transports are tagged so that the SimNet knows the sender
 	collectorAdds map[string][]string // marker -> nodes whose collector accepted it (via tracer observation)
 }
@@ -589,8 +589,8 @@ type bRequest struct {
 	apiKey   string
 	dataset  string
 	events   []*bEvent
-	bodyErr  bool // the client disconnects while the body is read
-	garbage  bool // malformed body
+	bodyErr  bool   // the client disconnects while the body is read
+	garbage  bool   // malformed body
 	compress string // "" | zstd | zstd_bad (compressed body that does not decode) | gzip
 	// results
 	resp     *respRec
